@@ -35,6 +35,12 @@ def ovr (rows : List (List Q)) (labs : List Nat) (c : Nat) : Samples :=
 def labelCol (rows : List (List Q)) (tgts : List (List Nat)) (l : Nat) : Samples :=
   (rows.zip tgts).map fun p => (p.1.getD l 0, p.2.getD l 0)
 
+/-- the three `(T, S)` count matrices (TP, FP, FN) of `S` binary problems `view 0 … view (S-1)`. -/
+def countMats (view : Nat → Samples) (S : Nat) (t : List Q) : Mat × Mat × Mat :=
+  (t.map fun u => (List.range S).map fun s => ((tpAt (view s) u : Nat) : Q),
+   t.map fun u => (List.range S).map fun s => ((fpAt (view s) u : Nat) : Q),
+   t.map fun u => (List.range S).map fun s => ((fnAt (view s) u : Nat) : Q))
+
 /-! ### rounding down to the threshold grid -/
 
 /-- `v` is `x` rounded down to the nearest threshold: the largest threshold `≤ x`. -/
